@@ -408,4 +408,68 @@ def finalState (L : Limits) : RunState → List (Int × Bool) → RunState
     if ready L s t && c then finalState L (addRun s t) rest
     else finalState L s rest
 
+/-! ### several actions: `Action::State` keyed by (name, id), `Actions::pending`, `Actions::add`
+
+`State::run_state` is a `std::map<pair<name, id>, RunState>`; a missing entry means "never run"
+(`run_count` 0).  The map is modelled as a total function. -/
+
+abbrev Key := String × Nat
+
+/-- `State::run_state` -/
+def AState := Key → RunState
+
+def AState.empty : AState := fun _ => ⟨0, 0⟩
+
+def AState.set (s : AState) (k : Key) (v : RunState) : AState := fun k' => if k' = k then v else s k'
+
+/-- one `ActionX`: identity (name, id) and limits -/
+structure ActDef where
+  key : Key
+  lim : Limits
+  deriving Repr
+
+/-- `Actions::pending(state, sim_time)`: the actions that are `ready`, in definition order -/
+def pendingA (acts : List ActDef) (s : AState) (t : Int) : List ActDef :=
+  acts.filter fun a => ready a.lim (s a.key) t
+
+/-- the simulator's loop over the pending actions at one time: evaluate the condition (`oc`), on
+true record the run (`State::add_run`) -/
+def runStep (t : Int) (oc : Key → Bool) : AState → List ActDef → AState × List (Key × Int)
+  | s, [] => (s, [])
+  | s, a :: r =>
+    if oc a.key then
+      let res := runStep t oc (s.set a.key (addRun (s a.key) t)) r
+      (res.1, (a.key, t) :: res.2)
+    else runStep t oc s r
+
+/-- a whole simulation: at each report step (time, condition outcomes) run the pending actions;
+the log lists (action, time) of every run -/
+def sim (acts : List ActDef) : AState → List (Int × (Key → Bool)) → List (Key × Int)
+  | _, [] => []
+  | s, (t, oc) :: rest =>
+    let res := runStep t oc s (pendingA acts s t)
+    res.2 ++ sim acts res.1 rest
+
+def simState (acts : List ActDef) : AState → List (Int × (Key → Bool)) → AState
+  | s, [] => s
+  | s, (t, oc) :: rest => simState acts (runStep t oc s (pendingA acts s t)).1 rest
+
+/-- the runs of one action in a log -/
+def runsOf (k : Key) (log : List (Key × Int)) : List Int :=
+  log.filterMap fun e => if e.1 = k then some e.2 else none
+
+/-- `Actions::add`: a new name is appended with id 0 (`ActionX::m_id` default); an existing name is
+replaced in place and gets the old id + 1 -/
+def addAction (acts : List ActDef) (name : String) (lim : Limits) : List ActDef :=
+  if acts.any (fun a => a.key.1 = name) then
+    acts.map fun a => if a.key.1 = name then ⟨(name, a.key.2 + 1), lim⟩ else a
+  else acts ++ [⟨(name, 0), lim⟩]
+
+/-- `State::load_rst` for one action: `run_count` times `add_run(last_run)` -/
+def loadRstN (k : Key) (last : Int) : Nat → AState → AState
+  | 0, s => s
+  | n + 1, s => loadRstN k last n (s.set k (addRun (s k) last))
+
+def loadRst (s : AState) (k : Key) (count : Nat) (last : Int) : AState := loadRstN k last count s
+
 end OpmVerif.Act
